@@ -89,6 +89,14 @@ impl ByteCompiler<'_> {
 
                 let no_throw = self.jump();
                 self.patch_handler(catch_handler);
+
+                // The exception thrown by the catch block is kept in a register while the
+                // finally block runs, so that the code of the finally block cannot replace it.
+                //
+                // If there is no exception, `return()` was called on the generator.
+                let has_exception = self.register_allocator.alloc();
+                self.bytecode
+                    .emit_maybe_exception(has_exception.variable(), error.variable());
                 self.bytecode.emit_store_true(finally_re_throw.variable());
 
                 self.patch_jump(no_throw);
@@ -100,10 +108,14 @@ impl ByteCompiler<'_> {
                     .expect("there should be a try block")
                     .flags |= JumpControlInfoFlags::IN_FINALLY;
                 self.compile_finally_stmt(f);
-                self.register_allocator.dealloc(error);
                 let do_not_throw_exit = self.jump_if_false(&finally_re_throw);
+                let is_generator_return = self.jump_if_false(&has_exception);
+                self.bytecode.emit_throw(error.variable());
+                self.patch_jump(is_generator_return);
                 self.bytecode.emit_re_throw();
                 self.patch_jump(do_not_throw_exit);
+                self.register_allocator.dealloc(has_exception);
+                self.register_allocator.dealloc(error);
                 self.pop_try_with_finally_control_info(finally_start);
                 self.register_allocator.dealloc(finally_re_throw);
                 self.register_allocator.dealloc(finally_jump_index);
